@@ -43,3 +43,6 @@ def _staged(*stages):
 
 
 REGISTRY['C09'] = _staged(('values', props_values.run), ('histories', props_cache.run_histories))
+
+import props_diagram
+REGISTRY['C20'] = props_diagram.run
